@@ -1,9 +1,295 @@
-//! C18: not built yet.
-use crate::out::Out;
-use serde_json::Value;
+//! C18: constant-argument checkers (`cwe_560::check_cwe`, `cwe_467::check_cwe`).
+//!
+//! Generates one-call blocks that compute the call's parameter(s) from constants alone (chains of
+//! add/sub/and/or/xor/shift/extension/subpiece steps, copies through registers and temporaries, a stack
+//! store followed by a load of the same slot and size; register and stack parameter conventions),
+//! runs the REAL checkers and records the number of warnings.  TLC (spec/trace/T_C18.tla) runs the block
+//! in the IR reference semantics and decides.  Nothing here decides anything.
+use crate::enc::*;
+use crate::irenc;
+use crate::irenc::mk_tid;
+use crate::exprgen::*;
+use crate::out::{catch, Out};
+use crate::rng::Rng;
+use cwe_checker_lib::analysis::graph::get_program_cfg;
+use cwe_checker_lib::checkers::{cwe_467, cwe_560};
+use cwe_checker_lib::intermediate_representation::*;
+use cwe_checker_lib::pipeline::AnalysisResults;
+use serde_json::{json, Value};
 
-pub fn gen(_out: &mut Out, _sub: &str) {}
+const BLK: &str = "blk_1000";
 
-pub fn replay(_run: &[Value], _sub: &str) -> Vec<Value> {
-    Vec::new()
+#[derive(serde::Serialize, serde::Deserialize, Clone)]
+pub struct Input {
+    pub checker: String,
+    pub defs: Vec<Term<Def>>,
+    pub symbol: ExternSymbol,
+}
+
+fn interesting(rng: &mut Rng) -> i64 {
+    match rng.below(24) {
+        0 => 0,
+        1 => 0o22,
+        2 => 0o177,
+        3 => 0o200,
+        4 => 0o176,
+        5 => 0o666,
+        6 => 0o776,
+        7 => 0o777,
+        8 => 0o1000,
+        9 => 0o644,
+        10 => 7,
+        11 => 8,
+        12 => 9,
+        13 => 4,
+        14 => 16,
+        15 => 0x1_0000_0008,
+        16 => -1,
+        17 => 0x100 + 8,
+        18 => 0x1_0000_01ff,
+        19 => 0x80,
+        _ => rng.range(0, 0o2000),
+    }
+}
+
+struct Gen<'a> {
+    rng: &'a mut Rng,
+    defs: Vec<Term<Def>>,
+    ntemp: u64,
+}
+
+impl<'a> Gen<'a> {
+    fn push(&mut self, d: Def) {
+        let n = self.defs.len();
+        self.defs.push(Term { tid: mk_tid(&format!("instr_1000_{}", n), "1000"), term: d });
+    }
+    fn holder(&mut self, size: u64) -> Variable {
+        if size == 8 && self.rng.chance(2, 3) {
+            reg(*self.rng.pick(&["RAX", "RBX", "RCX", "RBP"]), 8)
+        } else {
+            self.ntemp += 1;
+            tmp(&format!("$U{}_{}", self.ntemp, size), size)
+        }
+    }
+    /// emit defs that leave the constant `want` (truncated to `size` bytes) in a variable; returns it
+    fn chain(&mut self, want: i64, size: u64) -> Variable {
+        use BinOpType::*;
+        let mask = |x: i64| -> i64 {
+            if size >= 8 {
+                x
+            } else {
+                x & ((1i64 << (8 * size)) - 1)
+            }
+        };
+        // start value and random steps
+        let mut cur_val = mask(if self.rng.chance(1, 2) { interesting(self.rng) } else { self.rng.range(0, 0o2000) });
+        let mut cur = self.holder(size);
+        self.push(Def::Assign { var: cur.clone(), value: cst(cur_val, size) });
+        let steps = self.rng.below(4);
+        for _ in 0..steps {
+            let c = mask(if self.rng.chance(1, 2) { self.rng.range(0, 0o1000) } else { interesting(self.rng) });
+            let next = self.holder(size);
+            match self.rng.below(9) {
+                0 => {
+                    self.push(Def::Assign { var: next.clone(), value: bin(IntAdd, var(&cur), cst(c, size)) });
+                    cur_val = mask(cur_val.wrapping_add(c));
+                }
+                1 => {
+                    self.push(Def::Assign { var: next.clone(), value: bin(IntSub, var(&cur), cst(c, size)) });
+                    cur_val = mask(cur_val.wrapping_sub(c));
+                }
+                2 => {
+                    self.push(Def::Assign { var: next.clone(), value: bin(IntAnd, var(&cur), cst(c, size)) });
+                    cur_val = mask(cur_val & c);
+                }
+                3 => {
+                    self.push(Def::Assign { var: next.clone(), value: bin(IntOr, cst(c, size), var(&cur)) });
+                    cur_val = mask(cur_val | c);
+                }
+                4 => {
+                    self.push(Def::Assign { var: next.clone(), value: bin(IntXOr, var(&cur), cst(c, size)) });
+                    cur_val = mask(cur_val ^ c);
+                }
+                5 => {
+                    let k = self.rng.below(4) as i64;
+                    let asz = if self.rng.chance(1, 3) { 1 } else { size };
+                    self.push(Def::Assign { var: next.clone(), value: bin(IntLeft, var(&cur), cst(k, asz)) });
+                    cur_val = mask(cur_val.wrapping_shl(k as u32));
+                }
+                6 => {
+                    let k = self.rng.below(4) as i64;
+                    self.push(Def::Assign { var: next.clone(), value: bin(IntRight, var(&cur), cst(k, size)) });
+                    cur_val = mask(((mask(cur_val) as u64) >> k) as i64);
+                }
+                7 => {
+                    // spill and reload: same slot, same size
+                    let off = -8 * self.rng.range(1, 6);
+                    let a = bin(IntAdd, var(&sp_var()), cst(off, 8));
+                    self.push(Def::Store { address: a.clone(), value: var(&cur) });
+                    self.push(Def::Load { var: next.clone(), address: a });
+                }
+                _ => {
+                    self.push(Def::Assign { var: next.clone(), value: var(&cur) });
+                }
+            }
+            cur = next;
+        }
+        // final adjustment to the wanted value (the harness only needs the value to steer towards the
+        // thresholds; the specification recomputes everything)
+        if self.rng.chance(3, 4) {
+            let next = self.holder(size);
+            let want = mask(want);
+            match self.rng.below(3) {
+                0 => self.push(Def::Assign { var: next.clone(), value: bin(IntAdd, var(&cur), cst(mask(want.wrapping_sub(cur_val)), size)) }),
+                1 => self.push(Def::Assign { var: next.clone(), value: bin(IntSub, var(&cur), cst(mask(cur_val.wrapping_sub(want)), size)) }),
+                _ => self.push(Def::Assign { var: next.clone(), value: bin(IntXOr, var(&cur), cst(mask(cur_val ^ want), size)) }),
+            }
+            cur = next;
+        }
+        cur
+    }
+    /// bring a constant into parameter `arg`
+    fn set_param(&mut self, arg: &Arg, want: i64) {
+        match arg {
+            Arg::Register { expr, .. } => {
+                let (target, psize) = match expr {
+                    Expression::Var(v) => (v.clone(), u64::from(v.size)),
+                    Expression::Subpiece { size, arg, .. } => match &**arg {
+                        Expression::Var(v) => (v.clone(), u64::from(*size)),
+                        _ => unreachable!(),
+                    },
+                    _ => unreachable!(),
+                };
+                let full = u64::from(target.size);
+                // compute at the parameter's size and extend, or at the register's size
+                if psize < full && self.rng.chance(1, 2) {
+                    let v = self.chain(want, psize);
+                    let op = if self.rng.chance(1, 2) { CastOpType::IntZExt } else { CastOpType::IntSExt };
+                    self.push(Def::Assign { var: target, value: cast(op, full, var(&v)) });
+                } else if self.rng.chance(1, 6) {
+                    // wide computation, then the low half through a subpiece and back
+                    let v = self.chain(want, full);
+                    self.push(Def::Assign { var: target, value: cast(CastOpType::IntZExt, full, subpiece(0, 4, var(&v))) });
+                } else {
+                    let v = self.chain(want, full);
+                    self.push(Def::Assign { var: target, value: var(&v) });
+                }
+            }
+            Arg::Stack { address, size, .. } => {
+                let v = self.chain(want, u64::from(*size));
+                self.push(Def::Store { address: address.clone(), value: var(&v) });
+            }
+        }
+    }
+}
+
+fn param(rng: &mut Rng, regname: &str, stack_off: i64) -> Arg {
+    match rng.below(6) {
+        0 | 1 | 2 => Arg::from_var(reg(regname, 8), None),
+        3 => Arg::Register { expr: subpiece(0, 4, var(&reg(regname, 8))), data_type: None },
+        4 => Arg::Stack { address: bin(BinOpType::IntAdd, var(&sp_var()), cst(stack_off, 8)), size: ByteSize::new(4), data_type: None },
+        _ => Arg::Stack { address: bin(BinOpType::IntAdd, var(&sp_var()), cst(stack_off, 8)), size: ByteSize::new(8), data_type: None },
+    }
+}
+
+pub fn gen_input(seed: u64, idx: u64) -> Input {
+    let mut rng = Rng::new(seed.wrapping_mul(0x1_0000_01B3).wrapping_add(idx).wrapping_add(0xC18));
+    let umask = rng.chance(1, 2);
+    let params: Vec<Arg> = if umask {
+        vec![param(&mut rng, "RDI", 0)]
+    } else {
+        let n = 1 + rng.below(3) as usize;
+        (0..n).map(|i| param(&mut rng, ["RDI", "RSI", "RDX"][i], 8 * i as i64)).collect()
+    };
+    let name = if umask { "umask" } else { *rng.pick(&["malloc", "memmove"]) };
+    let symbol = mk_extern(name, "a000", params.clone(), false);
+    let mut g = Gen { rng: &mut rng, defs: vec![], ntemp: 0 };
+    for (i, p) in params.iter().enumerate() {
+        // a parameter is sometimes left to the caller's caller (not computed in this block)
+        if i > 0 && g.rng.chance(1, 4) {
+            continue;
+        }
+        let want = if umask || g.rng.chance(1, 2) {
+            interesting(g.rng)
+        } else {
+            *g.rng.pick(&[8i64, 8, 4, 16, 7, 9, 0x1_0000_0008, 0x108])
+        };
+        g.set_param(p, want);
+    }
+    let defs = g.defs;
+    Input { checker: if umask { "CWE560".into() } else { "CWE467".into() }, defs, symbol }
+}
+
+fn build(input: &Input) -> Project {
+    let call = Term {
+        tid: mk_tid("instr_1000_j0", "1000"),
+        term: Jmp::Call { target: input.symbol.tid.clone(), return_: Some(mk_tid("blk_1010", "1010")) },
+    };
+    let ret = Term { tid: mk_tid("instr_1010_j0", "1010"), term: Jmp::Return(var(&reg("RBX", 8))) };
+    let sub = Term {
+        tid: mk_tid("sub_1000", "1000"),
+        term: Sub {
+            name: "f".into(),
+            blocks: vec![
+                Term { tid: mk_tid(BLK, "1000"), term: Blk { defs: input.defs.clone(), jmps: vec![call], indirect_jmp_targets: vec![] } },
+                Term { tid: mk_tid("blk_1010", "1010"), term: Blk { defs: vec![], jmps: vec![ret], indirect_jmp_targets: vec![] } },
+            ],
+            calling_convention: None,
+        },
+    };
+    mk_project(vec![sub], vec![input.symbol.clone()])
+}
+
+pub fn exec(input: &Input, seed: u64, idx: u64) -> Value {
+    let project = build(input);
+    let res = catch(std::panic::AssertUnwindSafe(|| {
+        let graph = get_program_cfg(&project.program);
+        let ar = AnalysisResults::new(&[], &graph, &project);
+        let (_logs, warnings) = if input.checker == "CWE560" {
+            cwe_560::check_cwe(&ar, &Value::Null)
+        } else {
+            cwe_467::check_cwe(&ar, &json!({"symbols": ["malloc", "memmove"]}))
+        };
+        warnings.len() as u64
+    }));
+    let (warned, panic) = match res {
+        Ok(n) => (n as i64, String::new()),
+        Err(m) => (-1, if m.is_empty() { "panic".to_string() } else { m }),
+    };
+    let mut rng = Rng::new(seed.wrapping_mul(77).wrapping_add(idx).wrapping_add(0x18));
+    let inits = crate::props::c10::gen_inits(&mut rng, 2);
+    let blk = &project.program.term.subs[&mk_tid("sub_1000", "1000")].term.blocks[0];
+    json!({"ev": "c18", "checker": input.checker, "symbol": input.symbol.name, "blk": irenc::blk(blk),
+           "params": input.symbol.parameters.iter().map(irenc::arg).collect::<Vec<_>>(),
+           "sp": irenc::var(&project.stack_pointer_register),
+           "physregs": project.register_set.iter().map(irenc::var).collect::<Vec<_>>(),
+           "ptr": u64::from(project.get_pointer_bytesize()),
+           "initA": inits[0], "initB": inits[1], "seedA": (seed + idx) % 60000, "seedB": (seed + idx + 7919) % 60000,
+           "warned": warned, "panic": panic,
+           "input": serde_json::to_string(input).unwrap()})
+}
+
+pub fn gen(out: &mut Out, _sub: &str) {
+    let n = out.size(1200, 20000);
+    let seed = out.seed;
+    for idx in 0..n {
+        let input = gen_input(seed, idx);
+        let nontrivial = input.defs.len() >= 3;
+        let ev = exec(&input, seed, idx);
+        out.emit(vec![ev], nontrivial);
+    }
+}
+
+pub fn replay(run: &[Value], _sub: &str) -> Vec<Value> {
+    let mut out = Vec::new();
+    for (i, ev) in run.iter().enumerate() {
+        if let Some(Ok(input)) = ev["input"].as_str().map(serde_json::from_str::<Input>) {
+            let mut e = exec(&input, 0, i as u64);
+            for k in ["initA", "initB", "seedA", "seedB"] {
+                e[k] = ev[k].clone();
+            }
+            out.push(e);
+        }
+    }
+    out
 }
